@@ -80,10 +80,12 @@ def extend(bits, w, sign):
 
 
 class BitView:
-    def __init__(self, an, st):
+    def __init__(self, an, st, assign=None):
         self.an = an
         self.st = st
         self.cache = {}
+        self.assign = assign or {}         # symbol -> value: case split over a merged value with few members
+        self.joins = set()                  # merged symbols with 2..4 members met while computing bits
 
     def sym_bits(self, s, w, depth):
         key = (s, w)
@@ -91,6 +93,10 @@ class BitView:
             return self.cache[key]
         d = self.an.bitdef.get(s)
         st = self.st
+        if s in self.assign:
+            r = const_bits(self.assign[s], w)
+            self.cache[key] = r
+            return r
         if d is None or depth > 40:
             lo, hi = st.lo.get(s), st.hi.get(s)
             vals = st.sets.get(s)
@@ -105,8 +111,13 @@ class BitView:
             else:
                 r = [('i', s, k) for k in range(w)]
             if s.startswith(('phi(', 'join#', 'sel#', 'set#')) and not (vals is not None and len(vals) == 1):
-                # merged values: only the range is known
-                r = [UNK if isinstance(e, tuple) else e for e in r]
+                # merged values: only the range is known; bits equal in every member are known
+                if vals is not None and 2 <= len(vals) <= 4:
+                    self.joins.add(s)
+                    mb = [const_bits(x, w) for x in vals]
+                    r = [mb[0][k] if all(m[k] == mb[0][k] for m in mb) else UNK for k in range(w)]
+                else:
+                    r = [UNK if isinstance(e, tuple) else e for e in r]
             self.cache[key] = r
             return r
         op = d[0]
